@@ -358,12 +358,19 @@ AnalysisVerdict(post, q) ==
 \* a candle's own shape (C17): |open-close|, high-max(open,close), min(open,close)-low, high-low
 GeoVerdict(post, q) ==
   LET g == Geometry(post[q.j][q.i + 1])
-      num(f, x) == LET v == DictField(q.r, f) IN v.t = "q" /\ v.x = 1 /\ <<v.n, v.d>> = x
-      boo(f, x) == LET v == DictField(q.r, f) IN v.t = "b" /\ v.b = x
+      \* a float result that is the exact rational is compared exactly; one that carries float noise
+      \* (0.5297 - 0.5298) within 2e-6 on the observed side
+      num(f, x) == LET v == DictField(q.r, f)
+                   IN IF v.t # "q" THEN "bad"
+                      ELSE IF v.x = 1 THEN (IF <<v.n, v.d>> = x THEN "ok" ELSE "bad")
+                      ELSE WithinQ(v, x, 6, 0)
+      boo(f, x) == LET v == DictField(q.r, f) IN IF v.t = "b" /\ v.b = x THEN "ok" ELSE "bad"
+      rs == {num("body", g.body), num("upper", g.upper), num("lower", g.lower), num("range", g.range),
+             boo("pos", g.pos), boo("neg", g.neg)}
   IN IF post[q.j][q.i + 1].x = 0 THEN "unchecked"      \* candle values not exactly recoverable
-     ELSE IF q.r.t = "d" /\ num("body", g.body) /\ num("upper", g.upper) /\ num("lower", g.lower)
-        /\ num("range", g.range) /\ boo("pos", g.pos) /\ boo("neg", g.neg)
-     THEN "ok" ELSE "geo_shape"
+     ELSE IF q.r.t # "d" \/ "bad" \in rs THEN "geo_shape"
+     ELSE IF "unchecked" \in rs THEN "unchecked"
+     ELSE "ok"
 
 ReadFindings(T, e, post) ==
   { <<IF e.rd[q].w = "an" THEN AnalysisVerdict(post, e.rd[q])
